@@ -125,6 +125,25 @@ CLAIMED = {
              "clear destroys every released node's pair first and free goes through clear; every notifier call is NULL-guarded; the library "
              "never frees or writes through user keys/values. " + DECIDES % "C14",
         technique="abstract interpretation of node/pair identity (term flow with widened descent and predecessor loops) with exit obligations on notifier arguments"),
+    "C15": dict(
+        text="Rules C15.1-C15.4 on phashtable.c / plist.c: no key-dependent arithmetic in a signed type in the bucket function; every bucket "
+             "subscript is bounded by table->size (loop counter or bucket function modulo table->size), size equals the allocated slot count; "
+             "keys compared by identity, insert allocates only after an unsuccessful search, remove unlinks the identical node before freeing "
+             "it and stops, not-found marker (ppointer)-1, listing functions walk every chain to its end; no use after release. " + DECIDES % "C15",
+        technique="typed-AST signedness rule, index provenance, loop-exit analysis of chain walks, path-sensitive use-after-release typestate"),
+    "C16": dict(
+        text="Rules C16.1-C16.5 on pinifile.c (safety part): every unbounded %[ conversion and strcpy in the parse loop fits its destination "
+             "array given the fgets bound; parameter objects come only from those arrays, which bounds the list getter's buffer; sections "
+             "are linked only with a non-empty key list and parameters only into an open section; getters return the default for a missing "
+             "key and release the looked-up copy; each line string is freed and the file closed on every path; typed getters use the "
+             "documented conversion primitive and radix. The grammar semantics of the scanf patterns are not decided. " + DECIDES % "C16",
+        technique="format-string conversion bounds against array types, single-producer who-calls rule, restricted guard dataflow typestate for line/file/section"),
+    "C17": dict(
+        text="Rules C17.1-C17.4 on psocketaddress.c: every access through the native/destination buffer lies below the established length "
+             "(offsets and sizes from the record layouts); to_native and new_from_native copy the same (object field, native byte range) "
+             "pairs per family, port byte-swapped both ways and nothing else, family constants agree; get_native_size and to_native's guard "
+             "use the same structure sizes; text path restricted to numeric hosts with the addrinfo result freed on every path. " + DECIDES % "C17",
+        technique="guard dataflow lower bounds against record layouts, sibling field-pair agreement, constant-table agreement"),
 }
 
 NOT_YET = "check not yet armed (framework under construction); see DESIGN.md section 4 for the planned structural clauses"
